@@ -19,6 +19,7 @@ var specs = []Spec{
 	{ID: "C04", Level: "exploration", MinDistinct: 50, Engines: []Engine{
 		{Name: "seq", Pkg: "./mon/c04", Procs: 1},
 		{Name: "coop", Pkg: "./mon/chainco", Env: []string{"VERIF_PROP=C04"}},
+		{Name: "par", Pkg: "./mon/parcap", Race: true, Env: []string{"VERIF_PROP=C04"}, DeathSig: "C04/par:process-died"},
 	}},
 	{ID: "C05", Level: "exploration", MinDistinct: 50, Engines: []Engine{
 		{Name: "seq", Pkg: "./mon/c05", Procs: 1},
@@ -30,6 +31,7 @@ var specs = []Spec{
 	}},
 	{ID: "C07", Level: "exploration", MinDistinct: 50, Engines: []Engine{
 		{Name: "seq", Pkg: "./mon/c07", Procs: 1},
+		{Name: "par", Pkg: "./mon/parcap", Race: true, Env: []string{"VERIF_PROP=C07"}, DeathSig: "C07/par:process-died"},
 	}},
 	{ID: "C08", Level: "exploration", MinDistinct: 50, Engines: []Engine{
 		{Name: "seq", Pkg: "./mon/c08", Procs: 1},
@@ -78,6 +80,26 @@ func init() {
 		{Name: "seq", Pkg: "./mon/c20", Procs: 1, DeathSig: "C20/process-died"},
 		{Name: "recycle", Pkg: "./mon/c20", Env: []string{"VERIF_MODE=recycle"}, DeathSig: "C20/process-died"},
 	}})
+}
+
+// Single-threaded engines (GOMAXPROCS=1 monitors and the cooperative scheduler) are repeated with different
+// seeds, one process per core: 4 repetitions in the quick tier, 16 in the thorough tier.
+func init() {
+	for i := range specs {
+		for j := range specs[i].Engines {
+			e := &specs[i].Engines[j]
+			if e.Race || e.Custom != nil || !(e.Procs == 1 || e.Name == "coop") {
+				continue
+			}
+			e.Par = true
+			if e.RepeatQuick == 0 {
+				e.RepeatQuick = 4
+			}
+			if e.RepeatThorough == 0 {
+				e.RepeatThorough = 16
+			}
+		}
+	}
 }
 
 func findSpec(id string) *Spec {
